@@ -236,3 +236,16 @@ Proof.
   - symmetry. now apply Permutation_length.
   - symmetry. now apply mask_of_perm.
 Qed.
+
+(* the Fwd filler enables exactly the FORWARD list, whatever the owned list is (and the owned filler exactly the owned list) *)
+Theorem impl_row_lists g fm mask : fm <> 1 ->
+  let nm := length (g_mand g) in
+  let owned := rev (filter (in_mask nm mask) (g_opt g)) in
+  let fwd := rev (filter (in_mask nm (fwd_mask (length (g_opt g)) fm mask)) (g_opt g)) in
+  impl_row g fm mask = [mask; mask_of nm owned; nz (length owned); mask_of nm fwd; nz (length fwd); mask_of nm owned; 0].
+Proof.
+  intros F nm owned fwd. unfold impl_row. destruct (fm =? 1) eqn:E; [apply Z.eqb_eq in E; contradiction|].
+  fold nm. fold owned. fold fwd.
+  destruct (impl_enables_listed nm owned) as (_ & L1 & M1). destruct (impl_enables_listed nm fwd) as (_ & L2 & M2).
+  now rewrite L1, M1, L2, M2.
+Qed.
